@@ -1,8 +1,11 @@
 package props
 
 import (
+	"bytes"
+	"encoding/json"
 	"fmt"
 	"sort"
+	"strings"
 
 	"github.com/go-openapi/spec"
 
@@ -229,10 +232,123 @@ func c08Run(env *core.Env, idx int) core.CaseResult {
 			}
 		}
 	}
+	if n := w.Features["fault.dangling-pointer(near-miss)"]; n > 0 {
+		res.Count("fault.dangling-pointer(near-miss)", n)
+	}
+	c08SecondRoot(env, idx, &res)
 	res.NonTrivial = sawFaultAndHealthy
 	res.Sample = map[string]interface{}{"documents": len(w.Docs), "ref_holders": w.Slots, "fault_subsets": len(subsets), "planted": map[string]int{
 		"dangling": w.Features["fault.dangling-pointer"], "ill-typed": w.Features["fault.ill-typed"], "missing-doc": w.Features["fault.missing-document"]}}
 	return res
+}
+
+// refTexts collects the $ref texts found in v.
+func refTexts(v interface{}, out map[string]bool) {
+	switch x := v.(type) {
+	case map[string]interface{}:
+		for k, w := range x {
+			if s, ok := w.(string); ok && k == "$ref" {
+				out[s] = true
+				continue
+			}
+			refTexts(w, out)
+		}
+	case []interface{}:
+		for _, w := range x {
+			refTexts(w, out)
+		}
+	}
+}
+
+// c08SecondRoot: the entry points that take an in-memory root and a cache, called for two roots with one cache. The second root is the
+// first without one definition D; an element X that refers to D is expanded against both, in both orders. Against the root that lacks D
+// the call must fail, against the complete root it must not - whatever the cache has seen before.
+func c08SecondRoot(env *core.Env, idx int, res *core.CaseResult) {
+	rng := core.Rng(env.Seed, "C08/second-root", idx)
+	w := gen.GenWorld(rng, gen.WorldOpts{NDocs: 1, FragmentOnly: true, Cyclic: rng.Intn(2) == 0, Nested: rng.Intn(3) == 0, Elements: 2 + rng.Intn(2), MaxDepth: 1 + rng.Intn(2), RefDensity: 0.6})
+	rootJ, _ := oworld(w).Docs[w.Root].(map[string]interface{})
+	defs, _ := rootJ["definitions"].(map[string]interface{})
+	type pick struct{ section, name, d string }
+	var picks []pick
+	for _, section := range []string{"definitions", "parameters", "responses"} {
+		sec, _ := rootJ[section].(map[string]interface{})
+		var names []string
+		for k := range sec {
+			names = append(names, k)
+		}
+		sort.Strings(names)
+		for _, n := range names {
+			if el, _ := sec[n].(map[string]interface{}); el == nil || el["$ref"] != nil {
+				continue // the element itself is a $ref holder: the entry point would be handed a chain
+			}
+			texts := map[string]bool{}
+			refTexts(sec[n], texts)
+			for _, t := range sortedStrings(texts) {
+				d := strings.TrimPrefix(t, "#/definitions/")
+				if d == t || strings.Contains(d, "/") || (section == "definitions" && d == n) {
+					continue
+				}
+				if _, ok := defs[d]; ok {
+					picks = append(picks, pick{section, n, d})
+				}
+			}
+		}
+	}
+	if len(picks) == 0 {
+		return
+	}
+	pk := picks[rng.Intn(len(picks))]
+	full, _ := json.Marshal(rootJ)
+	delete(defs, pk.d)
+	lacking, _ := json.Marshal(rootJ)
+	local := "#/" + pk.section + "/" + gen.FragmentEscape(pk.name)
+	mkRoot := func(text []byte, typed bool) interface{} {
+		if typed {
+			sw := new(spec.Swagger)
+			_ = json.Unmarshal(text, sw)
+			return sw
+		}
+		var g interface{}
+		_ = json.Unmarshal(text, &g)
+		return g
+	}
+	call := func(root interface{}, cache spec.ResolutionCache) (error, string) {
+		return guard(func() error {
+			switch pk.section {
+			case "definitions":
+				return spec.ExpandSchema(spec.RefSchema(local), root, cache)
+			case "parameters":
+				return spec.ExpandParameterWithRoot(spec.ParamRef(local), root, cache)
+			}
+			return spec.ExpandResponseWithRoot(spec.ResponseRef(local), root, cache)
+		})
+	}
+	entry := map[string]string{"definitions": "ExpandSchema", "parameters": "ExpandParameterWithRoot", "responses": "ExpandResponseWithRoot"}[pk.section]
+	for _, typed := range []bool{true, false} {
+		for _, order := range []string{"complete-then-lacking", "lacking-then-complete"} {
+			cache := spec.VerifNewDefaultCache()
+			texts := [][]byte{full, lacking}
+			if order == "lacking-then-complete" {
+				texts = [][]byte{lacking, full}
+			}
+			for step, text := range texts {
+				err, pan := call(mkRoot(text, typed), cache)
+				res.Evals++
+				res.Count("second-root-with-shared-cache", 1)
+				wit := map[string]interface{}{"entry": entry, "element": local, "removed_definition": pk.d, "order": order, "step": step, "typed_root": typed,
+					"complete_root": json.RawMessage(full), "lacking_root": json.RawMessage(lacking)}
+				lacks := bytes.Equal(text, lacking)
+				switch {
+				case pan != "":
+					res.Violate("panic "+entry+" (second root, shared cache)", pan, wit)
+				case lacks && err == nil:
+					res.Violate("silent-failure: "+entry+" against a root that lacks the target (cache shared with another root)", fmt.Sprintf("%s refers to #/definitions/%s, which this root does not have; step %d of %s returned nil", local, pk.d, step, order), wit)
+				case !lacks && err != nil:
+					res.Violate("spurious-error: "+entry+" against a complete root (cache shared with another root)", fmt.Sprintf("step %d of %s: %v", step, order, err), wit)
+				}
+			}
+		}
+	}
 }
 
 func joinKeys(m map[string]bool) string {
@@ -262,12 +378,13 @@ func init() {
 		Level: "fault_enumeration",
 		Rule: "G-WORLD worlds with planted dangling pointers, missing documents and ill-typed (string/number/boolean/array) targets at every holder kind; per world the loader refuses every subset of the external documents " +
 			"(all 2^k subsets for k<=4, else singletons, pairs and 32 random subsets), each in strict and continue-on-error mode. strict: error iff some reachable $ref (containment + resolvable refs from the root's sections) is unresolvable; " +
-			"continue: no error, unresolvable schema $refs verbatim, everything else bisimilar to the input. non-trivial = some fault on a reachable $ref and some reachable $ref unaffected; distinct by world",
+			"continue: no error, unresolvable schema $refs verbatim, everything else bisimilar to the input. dangling pointers include near misses (undeclared status code, one past the end of a list, absent name). " +
+			"plus: ExpandSchema/ExpandParameterWithRoot/ExpandResponseWithRoot against a root and the same root minus a referenced definition, both orders, one shared cache, typed and generic roots. non-trivial = some fault on a reachable $ref and some reachable $ref unaffected; distinct by world",
 		NumCases: c08NumCases,
 		Run:      c08Run,
 		Floors: func(env *core.Env) []string {
 			return []string{"fault.loader-refusal", "fault.missing-document", "fault.dangling-pointer", "fault.ill-typed", "fault-holder.schema", "fault-holder.parameter",
-				"fault-holder.response", "fault-holder.pathItem", "strict.error-expected", "strict.no-error-expected", "continue.with-faults", "worlds-with-all-subsets-enumerated", "repeated-failure-with-shared-cache"}
+				"fault-holder.response", "fault-holder.pathItem", "strict.error-expected", "strict.no-error-expected", "continue.with-faults", "worlds-with-all-subsets-enumerated", "repeated-failure-with-shared-cache", "second-root-with-shared-cache", "fault.dangling-pointer(near-miss)"}
 		},
 		Exhaustive: func(env *core.Env) bool { return false },
 		Assumptions: []string{"the loader never refuses the root document itself",
